@@ -273,3 +273,18 @@ def check(ctx, run):
         ok = seen == [tuple(40 + i_ for i_ in range(len(f.params)))] and r == 4711
         run.ob("R4", "%s forwards to %s" % (fn_, libc), f.site, ok and prog.slots().get(slot) == {f.mn}, witness={"%s called with" % libc: [list(x) for x in seen], "returns": r},
                what="" if ok else "the seam does not hand its own arguments to %s once and return its result" % libc)
+        # ... also when the call fails: an interrupted call (EINTR) is reported to the caller, whose retries are bounded - a seam that
+        # retries by itself makes that bound dead code (the parent then waits for as long as signals keep arriving)
+        for en in (4, 10):        # EINTR, ECHILD
+            seen = []
+            ev = Evaluator(prog, f, env=dict({q["name"]: 40 + i_ for i_, q in enumerate(f.params)}, **{"ERRNO[0]": en}),
+                           calls={libc: lambda *a_: (seen.append(tuple(a_)), -1)[1] if len(seen) < 50 else None, "__errno_location": lambda: ("ptr", "ERRNO", 0)})
+            ev.optional_stubs = {"__errno_location"}
+            try:
+                ev.run_blocks(f.entry, max_steps=3000)
+                r = getattr(ev, "ret", None)
+            except Unknown as u:
+                r = "unknown: %s" % u
+            ok = len(seen) == 1 and r == -1
+            run.ob("R4", "%s folded with %s failing (errno %d): asks once and reports the failure to its caller" % (fn_, libc, en), f.site, ok, witness={"calls": len(seen), "returns": r},
+                   what="" if ok else "%s is called %d times inside the seam (returns %s): the caller's bounded retry never sees the interruption" % (libc, len(seen), r))
